@@ -3,7 +3,7 @@
    models/Ants.v, promptness predicates models/AntsPrompt.v.
    Quantified over every pool size N, options, handler behaviours and accepted event
    histories (all tie orders). *)
-From Got Require Import Base Ants AntsProofs AntsPrompt AntsPromptProofs.
+From Got Require Import Base Ants AntsProofs AntsPrompt AntsPromptProofs AntsOptions AntsOptionsProofs.
 Local Open Scope Z_scope.
 
 (* in every reachable state the number of running handler invocations -- including those of
@@ -208,3 +208,93 @@ Theorem ants_steps_channels_bounded :
     ast_reach md n progs s -> (length (ast_tchan s) <= n)%nat /\ (length (ast_ichan s) <= n)%nat.
 Proof. exact ast_steps_channels_bounded. Qed.
 Print Assumptions ants_steps_channels_bounded.
+
+(* ------------------------------------------------------------------------------------------------
+   "A pool created with size N", "timeout T and retry count R": which N, T, R a NewPool / Send call
+   obtains (models/AntsOptions.v: pool_option.go and task_option.go transcribed as functions of the
+   literal option list; several pools in one process).  Proofs in proofs/AntsOptionsProofs.v. *)
+
+(* WithSize / WithContextBuilder: the size is >= 1; it is 1 when no WithSize with a positive argument
+   was given (no options at all, WithSize(0), WithSize(-3): non-positive sizes are ignored); the LAST
+   positive WithSize wins; WithContextBuilder never changes the size, a nil builder is ignored. *)
+Theorem ants_pool_size :
+  forall l,
+    1 <= apo_size (apo_create l) /\
+    ((forall n, In (ApoSize n) l -> n <= 0) -> apo_size (apo_create l) = 1) /\
+    ((forall b, ~ In (ApoBuilder (Some b)) l) -> apo_builder (apo_create l) = None) /\
+    (forall n, apo_size (apo_create (l ++ [ApoSize n])) = if 0 <? n then n else apo_size (apo_create l)) /\
+    (forall b, apo_size (apo_create (l ++ [ApoBuilder b])) = apo_size (apo_create l)).
+Proof. exact ants_pool_size_l. Qed.
+Print Assumptions ants_pool_size.
+
+(* WithTimeout / WithRetry / WithDiscardOnBusy / WithError: T > 0 and R > 0 always; without a positive
+   WithTimeout T = 365 days, without a positive WithRetry R = 1, without WithDiscardOnBusy the task is
+   discarded when busy, without WithError there is no callback; the last effective option wins. *)
+Theorem ants_task_options :
+  forall l,
+    let c := ato_create l in
+    0 < ato_timeout c /\ 0 < ato_retry c /\
+    ((forall t, In (AtoTimeout t) l -> t <= 0) -> ato_timeout c = 365 * ato_day) /\
+    ((forall n, In (AtoRetry n) l -> n <= 0) -> ato_retry c = 1) /\
+    ((forall b, ~ In (AtoDiscard b) l) -> ato_discard c = true) /\
+    ((forall b, ~ In (AtoError b) l) -> ato_onerr c = false) /\
+    (forall o, ato_create (l ++ [o]) = ato_apply c o).
+Proof. exact ants_task_options_l. Qed.
+Print Assumptions ants_task_options.
+
+(* Over ALL sequences of NewPool / Send calls of one process (any number of pools, any option lists, any
+   order): with the code in /repo now (AnoFresh: createPoolOptions / createTaskOptions start from a fresh
+   struct literal) the configuration obtained by the j-th NewPool call is apo_create of ITS OWN option list
+   and the one obtained by the i-th Send call is ato_create of ITS OWN option list -- nothing an earlier
+   call did (on the same or on another pool) is visible. *)
+Theorem ants_config_own_options_only :
+  forall cs,
+    ano_pools (ano_calls AnoFresh cs) = ano_want_pools cs /\
+    ano_tasks (ano_calls AnoFresh cs) = ano_want_tasks cs.
+Proof. exact ants_config_own_options_only_l. Qed.
+Print Assumptions ants_config_own_options_only.
+
+(* ... and that is a property of the allocation, not of the option functions: with a package-level default
+   struct that the options mutate in place (AnoSharedDefault) the calls NewPool(WithSize(3)); Send(WithRetry(5),
+   WithTimeout(1000)); NewPool(); NewPool(WithSize(0)); Send() give pools of sizes 3, 3, 3 (wanted 3, 1, 1)
+   and the last Send R = 5, T = 1000 (wanted R = 1, T = 365 days). *)
+Theorem ants_shared_default_options_refuted :
+  map apo_size (ano_pools (ano_calls AnoSharedDefault ano_leak_calls)) = [3; 3; 3] /\
+  map apo_size (ano_want_pools ano_leak_calls) = [3; 1; 1] /\
+  map (fun x => (ato_retry (snd x), ato_timeout (snd x))) (ano_tasks (ano_calls AnoSharedDefault ano_leak_calls)) = [(5, 1000); (5, 1000)] /\
+  map (fun x => (ato_retry (snd x), ato_timeout (snd x))) (ano_want_tasks ano_leak_calls) = [(5, 1000); (1, 365 * ato_day)].
+Proof. exact ants_shared_default_options_refuted_l. Qed.
+Print Assumptions ants_shared_default_options_refuted.
+
+(* Several pools in one process (anm_step: pools are created at any time with a literal option list, share
+   nothing but the clock, every Send carries its literal task option list): in every reachable state every
+   pool is, by itself, in a state reachable by the single-pool machine whose configuration is computed
+   from THAT pool's option list, at the common clock -- so every theorem above and in C07.v holds for
+   each pool of a multi-pool process with N = its own size. *)
+Theorem ants_multi_pool_projection :
+  forall urg evs s,
+    anm_run urg anm_init evs = Some s ->
+    forall p pl, nth_error (anm_pools s) p = Some pl ->
+      (exists h, an_run (anm_cfg urg (anm_popts pl)) an_init h = Some (anm_st pl)) /\ an_now (anm_st pl) = anm_now s.
+Proof. exact ants_multi_pool_projection_l. Qed.
+Print Assumptions ants_multi_pool_projection.
+
+(* the first clause of C08 for a process with several pools: at every instant pool p runs at most N_p
+   handler invocations at once, N_p >= 1 computed from p's own NewPool options only; N_p = 1 for NewPool(),
+   NewPool(WithSize(0)), NewPool(WithSize(-1)), whatever the other pools of the process were created with. *)
+Theorem ants_multi_pool_concurrency :
+  forall urg evs s p pl,
+    anm_run urg anm_init evs = Some s -> nth_error (anm_pools s) p = Some pl ->
+    let N := Z.to_nat (apo_size (apo_create (anm_popts pl))) in
+    (an_nrun (an_workers (anm_st pl)) <= N)%nat /\ (an_maxrun (anm_st pl) <= N)%nat /\ (1 <= N)%nat /\
+    ((forall n, In (ApoSize n) (anm_popts pl) -> n <= 0) -> N = 1%nat).
+Proof. exact ants_multi_pool_concurrency_l. Qed.
+Print Assumptions ants_multi_pool_concurrency.
+
+(* non-vacuity: NewPool(WithSize(2)) then NewPool() in one process, two Sends each (the second pool's with
+   WithRetry(0) / WithRetry(-1), no WithTimeout): at 500 the first pool has run 2 handlers at once, the
+   second 1 (N = 1) while its second task (R = 1, T = 365 days) still waits in the task channel: no
+   dispatcher of pool 1 can pick it up. *)
+Example c08_multi_pool_nonvacuous :
+  anm_w_obs = Some (500, 2%nat, 1%nat, 2%nat, 1%nat, [1%nat], 1%nat, 365 * ato_day, true).
+Proof. exact ants_multi_pool_witness_l. Qed.
